@@ -13,6 +13,32 @@ CMD = "cd /verif && PYTHONHASHSEED=0 /venv/bin/python run.py {id} --tier {tier}"
 
 # id -> (engine, category, technique, text, note, design_ref)
 CLAIMED = {
+    "C01": ("ENUM", "exploration",
+            "bounded-exhaustive enumeration of message content, differential against a reference RFC 6733 encoder",
+            "Complete products over explicit alphabets (header fields, all 256 AVP flag bytes, data lengths "
+            "0..9, every dictionary class x every domain value, all AVP sequences <= 2/3 over a 12-letter "
+            "alphabet x 4 construction paths, Grouped chains to depth 3/4, typed commands) are built through "
+            "the public API and their bytes compared with an independent encoder fed the same content.",
+            "Trusts vk/ref/refcodec.py and the frozen dictionary vk/ref/refdict.json; values outside the "
+            "alphabets are not covered; constructors that reject an in-domain value are counted, not judged.",
+            "DESIGN.md 4/C01"),
+    "C02": ("ENUM", "exploration",
+            "bounded-exhaustive enumeration of reference-encoded wire images, field-by-field decode comparison",
+            "Wire images for every class x domain value x flag byte (16 quick / all 128 thorough), unknown "
+            "(vendor, code) pairs, nested Grouped AVPs, header products with all 256 command-flag bytes and "
+            "all streams of <= 2/3 messages over a 5-message alphabet are decoded by the library and compared "
+            "field by field and by re-serialisation.",
+            "Trusts refcodec/refdict; 'well-formed' excludes non-zero padding, V bit with Vendor-ID 0, unknown "
+            "enumerators, Grouped AVPs lacking mandatory members. One known finding (flags of known AVPs).",
+            "DESIGN.md 4/C02"),
+    "C10": ("ENUM", "exploration",
+            "bounded-exhaustive enumeration of classes x in/out-of-domain values against the frozen dictionary",
+            "Every dictionary class x every value of in-domain and out-of-domain alphabets: construction "
+            "raises or dumps a well-formed encoding of the value; plus function-ness of (vendor, code), wire "
+            "identity vs the frozen dictionary, decode dispatch, docs and IANA cross-reading.",
+            "Default flags in refdict are frozen from the pinned tree (the published list has no flags); any "
+            "exception counts as rejection; UTF-8 validity and negative Unsigned64 are not judged.",
+            "DESIGN.md 4/C10"),
     "C17": ("ENUM", "exploration",
             "bounded-exhaustive enumeration of the real predicates against n // 1000",
             "Every code 0..65535 plus 32-bit boundaries and all library constants (thorough: plus a "
